@@ -258,6 +258,9 @@ func eq(a, b reflect.Value, o EqOpt, root bool) bool {
 		return true
 	case reflect.Struct:
 		for i := 0; i < a.NumField(); i++ {
+			if t.Field(i).Name == "_" {
+				continue // blank fields are not part of the value (== ignores them as well)
+			}
 			if !eq(a.Field(i), b.Field(i), o, false) {
 				return false
 			}
@@ -389,6 +392,9 @@ func FirstDiff(a, b reflect.Value) string {
 		return ""
 	case reflect.Struct:
 		for i := 0; i < a.NumField(); i++ {
+			if a.Type().Field(i).Name == "_" {
+				continue
+			}
 			if d := FirstDiff(a.Field(i), b.Field(i)); d != "" {
 				return d
 			}
